@@ -7,7 +7,7 @@ set -u
 LANES="${1:-4}"; shift
 MUTS="$@"
 [ -z "$MUTS" ] && MUTS=$(ls /verif/seeded | grep -E '^C[0-9]+-[a-z]$')
-OUT=/verif/seeded/matrix; mkdir -p "$OUT"
+OUT=${MATRIX_OUT:-/verif/seeded/matrix}; mkdir -p "$OUT"
 BASE=/tmp/mx; rm -rf "$BASE"; mkdir -p "$BASE"; git -C /repo worktree prune
 IDS=$(python3 -c "import json;print(' '.join(c['property_id'] for c in json.load(open('/verif/MANIFEST.json'))['checks']))")
 lane() {
@@ -20,7 +20,9 @@ lane() {
     git -C $D/repo checkout -q -- . ; git -C $D/repo clean -fdq
     if ! git -C $D/repo apply /verif/seeded/$m/patch.diff; then echo "$m APPLY-FAILED" > $OUT/$m.txt; continue; fi
     : > $OUT/$m.txt.tmp
-    for id in $IDS; do
+    RUNIDS="$IDS"
+    [ -n "${OWN_ONLY:-}" ] && RUNIDS="${m%-*}"
+    for id in $RUNIDS; do
       o=$(cd $D/verif && REPO_DIR=$D/repo ./check.sh $id quick 2>&1); rc=$?
       sigs=$(echo "$o" | grep -E "^  sig=" | sed 's/^  sig=//' | sort -u | head -4 | tr '\n' ';')
       echo "$id rc=$rc $sigs" >> $OUT/$m.txt.tmp
